@@ -28,7 +28,7 @@ chk("C14", "exploration",
     "DESIGN.md §3 C14")
 
 chk("C16", "exploration",
-    "Every sentence of the path grammar up to 2 (quick) / 3 (thorough) leaves in every layout of a whitespace/parenthesis menu, and every single-edit mutation of every canonical sentence, is classified by a literal interpreter of the documented PEG with end-of-input and compared with what CompileProfile accepts; accepted strings are compared structurally (AST) and, for a subset, by denotation; every string is also given to the path parser directly, so that a later stage cannot mask a parser that accepts too much. Identifiers of 31..257 characters are included.",
+    "Every sentence of the path grammar up to 2 (quick) / 3 (thorough) leaves in every layout of a whitespace/parenthesis menu, and every single-edit mutation of every canonical sentence, is classified by a literal interpreter of the documented PEG with end-of-input and compared with what CompileProfile accepts; accepted strings are compared structurally (AST) and, for a subset, by denotation; identifiers of 31..257 characters are included. (A string the path parser alone would accept but a later stage rejects is recorded as a note: the property is observed at CompileProfile.)",
     "The reference language is third_party/propertyparser.peg plus end of input, with '^' as the only modifier; the '*' modifier is undocumented.",
     "bounded exhaustive enumeration of strings (all layouts, all single edits) against a reference recogniser, on the real implementation",
     "DESIGN.md §3 C16")
